@@ -1,9 +1,9 @@
 package props
 
 import (
-	"os"
 	"context"
 	"fmt"
+	"os"
 	"strings"
 	"sync"
 	"sync/atomic"
